@@ -273,6 +273,14 @@ def check_C01(history):
                 if exempt_by_failed_producer(execs, st, need):
                     continue
                 vm_os = short_root(need["obj"])
+                blocked = instructed_but_not_allowed(execs, st, need)
+                if blocked:
+                    out.append(V("C01", "missing-state/instructed-source-not-in-scope",
+                                 f"{st['label']} started without {need['type']} state {need['state']} of {vm_os}: the worker that produced it "
+                                 f"is named as a source but its {blocked[1]} scope is not enabled",
+                                 cls=st["cls"], worker=st["worker"], producer=blocked[0], source_class=blocked[1],
+                                 scope=need["scope"], spawner=st.get("spawner"), seq=st["seq"], epoch=epoch))
+                    continue
                 residue = own_pool_residue(events, st, need)
                 if residue:
                     # the only holder of the state is another worker's own pool, found there by that
@@ -289,6 +297,32 @@ def check_C01(history):
                              obj=need["obj"], state=need["state"], locations=need["locations"],
                              scope=need["scope"]))
     return dedup(out)
+
+
+def source_class(me, other):
+    """Documented proximity of another worker's pool (ids: netN on localhost, clusterK.netN remote)."""
+    gw = lambda w: w.split(".")[0] if "." in w else ""
+    if gw(me) != gw(other):
+        return "cluster"
+    return "swarm" if me != other else "own"
+
+
+def instructed_but_not_allowed(execs, st, need):
+    """A listed source worker passed the producer in this epoch, but its scope class is disabled."""
+    scopes = need["scope"].split()
+    for loc in need["locations"].split():
+        net, _, _ = loc.partition(":")
+        if not net or net == st["worker"]:
+            continue
+        cls = source_class(st["worker"], net)
+        if cls in scopes:
+            continue
+        for ex in execs:
+            pst = ex["start"]
+            if pst["worker"] == net and ex["status"] == "PASS" and ex["end"] is not None and ex["end"]["seq"] < st["seq"] \
+                    and any(s_["obj"] == need["obj"] and s_["state"] == need["state"] for s_ in pst["sets"]):
+                return (net, cls)
+    return None
 
 
 def own_pool_residue(events, st, need):
@@ -392,7 +426,10 @@ def check_C02(history, expected_tests=None):
                                  epoch=epoch, name=r["name"], status=r["status"]))
             if expected_tests is not None:
                 started_names = [ev["name"] for ev in starts]
+                found_present = {ev["name_head"] for ev in events if ev["kind"] == "door.check" and ev["answer"]}
                 for flat in expected_tests.get(epoch, expected_tests.get("*", [])):
+                    if flat in found_present:
+                        continue  # a selected test that only produces states which all exist already is skipped (C03)
                     if not any(n.startswith(flat + ".") for n in started_names):
                         out.append(V("C02", "not-executed", f"selected test {flat} was never executed",
                                      epoch=epoch, test=flat))
@@ -502,6 +539,8 @@ def check_C08(history, worker_table=None):
             if worker_table and wid in worker_table:
                 mine = worker_table[wid]
                 for key, value in mine["access"].items():
+                    if key == "nets":
+                        continue  # the test's ``nets`` is the worker id itself, checked above
                     if access.get(key) != value:
                         out.append(V("C08", "wrong-access", f"{st['label']} runs with foreign connection parameter {key}",
                                      worker=wid, key=key, got=access.get(key), want=value, seq=st["seq"]))
@@ -532,7 +571,7 @@ def check_C08(history, worker_table=None):
                 producers = set()
                 for e in ended:
                     pst = next(x["start"] for x in execs if x["start"]["serial"] == e["serial"])
-                    if e["status"] == "PASS" and any(s["obj"] == need["obj"] and s["state"] == need["state"] for s in pst["sets"]):
+                    if e["status"] in ("PASS", "WARN") and any(s["obj"] == need["obj"] and s["state"] == need["state"] for s in pst["sets"]):
                         producers.add(e["worker"])
                 extra = listed - producers
                 # replayed previous results legitimately name their workers
@@ -573,7 +612,7 @@ def replayed_passers(history, epoch):
         return out
     wanted = str(cfg["replay"]).split()
     for ev in history["events"]:
-        if ev["kind"] == "end" and f"job{ev['epoch']}" in wanted and ev["status"] == "PASS" and not ev.get("lost"):
+        if ev["kind"] == "end" and f"job{ev['epoch']}" in wanted and ev["status"] in ("PASS", "WARN") and not ev.get("lost"):
             out.add((ev["worker"], None, None))
     return out
 
